@@ -49,6 +49,18 @@ CHECKS = {
                      'no later than the trigger time, never raises its own interrupt, no owner/child code after the trigger, no '
                      'interrupt after completion.',
                 note='Bounded programs; notification kinds in this round: delay and flag (time conditions are covered by C01/C08 configs).'),
+    'C10': dict(obs='ObsC10', ref='4/C10',
+                text='TLC explores all programs of <=3 producers/consumers on a Queue (put/get/close, until-interrupts, cancel and '
+                     'forced close at every boundary, including the read-mutex hand-over); witnesses replayed on the real Queue; '
+                     'TLC validates real traces against ObsC10: receives follow put order exactly once, waiting receivers served '
+                     'in order, StreamClosed only after buffered items, put on closed refused, and received + drained = accepted.',
+                note='Bounded programs, distinct integer items. The remaining buffer is observed by a fresh consumer in a fresh simulation.'),
+    'C11': dict(obs='ObsC11', ref='4/C11',
+                text='TLC explores all programs of <=3 producers/consumers on a Channel (iteration with late subscription, single '
+                     'await, leave, close, interrupts/cancel/close at every boundary); replay on the real Channel; TLC validates '
+                     'against ObsC11: per consumer exactly the puts after its subscription, in order, once; single await gets the '
+                     'first message; close semantics; nobody left waiting for a message that was put.',
+                note='Bounded programs; a consumer iterator is kept by the puppet until it stops explicitly or its generator ends.'),
 }
 
 
